@@ -104,9 +104,15 @@ pub fn vec_u8_to_bytes_le(input: &[u8]) -> Result<Vec<u8>> {
 pub fn bytes_le_to_vec_u8(input: &[u8]) -> Result<(Vec<u8>, usize)> {
     let mut read: usize = 0;
 
+    if input.len() < 8 {
+        return Err(Report::msg("input data is too short"));
+    }
     let len = usize::try_from(u64::from_le_bytes(input[0..8].try_into()?))?;
     read += 8;
 
+    if len > input.len() - 8 {
+        return Err(Report::msg("declared length exceeds the input data"));
+    }
     let res = input[8..8 + len].to_vec();
     read += res.len();
 
@@ -118,10 +124,16 @@ pub fn bytes_le_to_vec_fr(input: &[u8]) -> Result<(Vec<Fr>, usize)> {
     let mut read: usize = 0;
     let mut res: Vec<Fr> = Vec::new();
 
+    if input.len() < 8 {
+        return Err(Report::msg("input data is too short"));
+    }
     let len = usize::try_from(u64::from_le_bytes(input[0..8].try_into()?))?;
     read += 8;
 
     let el_size = fr_byte_size();
+    if len > (input.len() - 8) / el_size {
+        return Err(Report::msg("declared length exceeds the input data"));
+    }
     for i in 0..len {
         let (curr_el, _) = bytes_le_to_fr(&input[8 + el_size * i..8 + el_size * (i + 1)]);
         res.push(curr_el);
